@@ -25,12 +25,12 @@ VIOLATES = {"SniffBeforeHeader": "HeaderRespected", "RejectUnknown": "UnknownAcc
             "LaxPort": "EffSound", "LaxLF": "EffSound", "RtLostOnFirstRead": "RtAlwaysArmed"}
 ALL_INV = ["TypeOK", "EffSound", "HeaderRespected", "UnknownAccepted", "OffIsPayload", "NoByteLost", "Verbatim", "MarkerDecided",
            "MalformedNeverTrusted", "DispatchRight", "RtAlwaysArmed", "AnswersUseEff"]
-# invariants a deviation is expected to break (the others must survive it)
+# invariants a deviation breaks on the model (measured once, deviation by deviation and invariant by invariant); the others must survive it
 BREAKS = {"SniffBeforeHeader": {"HeaderRespected", "UnknownAccepted", "DispatchRight"},
           "RejectUnknown": {"UnknownAccepted"},
-          "EofInPrefixDrops": {"NoByteLost"},
-          "LaxPort": {"EffSound", "NoByteLost", "MalformedNeverTrusted"},
-          "LaxLF": {"EffSound", "NoByteLost", "MalformedNeverTrusted"},
+          "EofInPrefixDrops": {"NoByteLost", "MalformedNeverTrusted"},
+          "LaxPort": {"EffSound", "NoByteLost", "MalformedNeverTrusted", "DispatchRight"},
+          "LaxLF": {"EffSound", "NoByteLost", "MalformedNeverTrusted", "DispatchRight"},
           "RtLostOnFirstRead": {"RtAlwaysArmed"}}
 
 
@@ -229,7 +229,7 @@ def sample(ctx, hs, rng):
     """quick: a seeded sample that touches every (listener kind, header kind) class with plain, timed and rt histories;
     thorough: every untimed history, the timed ones up to a budget"""
     def cls(h):
-        return (h["c"]["proto"], h["c"]["pxy"], h["c"]["ropt"], h["c"]["rt"], h["s"]["head"], h["s"]["fam"])
+        return (h["c"]["proto"], h["c"]["pxy"], h["c"]["ropt"], h["c"]["rt"], h["s"]["head"], h["s"]["fam"], h["s"]["sni"])
     by = {}
     for h in hs:
         evs = {s["ev"] for s in h["h"]}
@@ -239,7 +239,10 @@ def sample(ctx, hs, rng):
     out = []
     for k in sorted(by, key=str):
         rng.shuffle(by[k])
-        out += by[k][:quota[k[1]]]
+        q = quota[k[1]]
+        if k[0][0] == "https+tcp+sni" and k[0][4] == "none" and k[0][6] == "sw":
+            q = ctx.pick(30, 10 ** 9)       # the dispatch must follow the table of the moment: both tables, changes, every cut
+        out += by[k][:q]
     return out
 
 
@@ -337,10 +340,12 @@ def run(ctx):
     g = replay_histories(ctx, hs + self, "replay")
     if g is not None:
         s = g.summary
-        ctx.log("replay: %s" % {k: s[k] for k in ("histories", "voids", "retries", "selftest_rejected", "selftest_missed", "classes", "lanes", "replay_ms")})
+        ctx.log("replay: %s" % {k: s[k] for k in ("histories", "skipped", "voids", "retries", "selftest_rejected", "selftest_missed", "classes", "lanes", "replay_ms")})
+        if s["skipped"]:
+            ctx.log("replay stopped early: %d histories had failed in every attempt, %d were not played" % (len(g.of_kind("fail")), s["skipped"]))
         for m in g.of_kind("selftest-miss"):
             ctx.log("self-test miss (%s): %s" % (m.get("what"), json.dumps(m.get("case"))[:1500]))
-        if s["selftest_missed"] or s["selftest_rejected"] < len(self):
+        if not s["skipped"] and (s["selftest_missed"] or s["selftest_rejected"] < len(self)):
             ctx.inconclusive("binding self-test: %d of %d corrupted histories were not rejected" % (len(self) - s["selftest_rejected"], len(self)))
         nvoid = len(g.of_kind("void"))
         if nvoid > max(20, len(hs) // 20):
